@@ -2,6 +2,7 @@ import BeffVerif.Props.C02
 import BeffVerif.Props.C02Sound
 import BeffVerif.Props.C02Complete
 import BeffVerif.Props.C16Refs
+import BeffVerif.Props.Consts
 open BeffVerif.C02
 #print axioms valid_type_only
 #print axioms typeof_exact
@@ -36,3 +37,4 @@ open BeffVerif.C02
 #print axioms BeffVerif.C02F.fragment_example_converse
 #print axioms BeffVerif.C16R.definition_refs_resolve
 #print axioms BeffVerif.C16R.returned_refs_resolve
+#print axioms BeffVerif.Consts.mergeable_keys_current
